@@ -56,12 +56,14 @@ fn gen_continuation<S: Spec>(p: &mut Prng) -> Vec<Op> {
 
 struct PairResult {
     eq_before: Option<(bool, bool)>,
+    ne_before: Option<bool>,
     diverged_at: Option<(usize, String, String)>,
     eq_after: Option<bool>,
 }
 
 fn run_pair<S: Spec>(a: &mut S::R, b: &mut S::R, cont: &[Op], r: &mut Report) -> PairResult {
     let eq_before = S::eq(a, b).map(|x| (x, S::eq(b, a).unwrap()));
+    let ne_before = S::ne(a, b);
     let mut diverged_at = None;
     for (i, op) in cont.iter().enumerate() {
         let (x, y) = (apply_ext::<S>(a, op), apply_ext::<S>(b, op));
@@ -72,7 +74,7 @@ fn run_pair<S: Spec>(a: &mut S::R, b: &mut S::R, cont: &[Op], r: &mut Report) ->
         }
     }
     let eq_after = if diverged_at.is_none() { S::eq(a, b) } else { None };
-    PairResult { eq_before, diverged_at, eq_after }
+    PairResult { eq_before, ne_before, diverged_at, eq_after }
 }
 
 fn judge<S: Spec>(kind: &str, is_clone: bool, res: &PairResult, desc: serde_json::Value, sub: &str, id: u64, r: &mut Report) {
@@ -82,6 +84,10 @@ fn judge<S: Spec>(kind: &str, is_clone: bool, res: &PairResult, desc: serde_json
     d["eq_before"] = json!(format!("{:?}", res.eq_before));
     d["diverged_at"] = json!(format!("{:?}", res.diverged_at));
     if let Some((ab, ba)) = res.eq_before {
+        if res.ne_before == Some(ab) {
+            r.violation(format!("{}:ne_is_not_the_negation_of_eq", S::NAME), sub, id, d);
+            return;
+        }
         if ab != ba {
             r.violation(format!("{}:eq_not_symmetric", S::NAME), sub, id, d);
             return;
@@ -242,6 +248,10 @@ impl CoreLike for rand_isaac::isaac64::Isaac64Core {
 /// eq ⇒ same generated blocks and still eq; different blocks ⇒ must be !=
 fn core_pair<C: CoreLike>(mut a: C, mut b: C, kind: &str, is_clone: bool, desc: serde_json::Value, sub: &str, id: u64, r: &mut Report) {
     let (ab, ba) = (a == b, b == a);
+    if (a != b) == ab {
+        r.violation(format!("{}:ne_is_not_the_negation_of_eq", C::NAME), sub, id, desc.clone());
+        return;
+    }
     let mut diverged = None;
     let mut ra = C::Results::default();
     let mut rb = C::Results::default();
